@@ -62,6 +62,12 @@ THEOREMS = {"Artap.Props.C11": [
     "C11_write_after_failed_attempt_illegal", "C11_good_row_readable", "C11_meta_survives"]}
 RUN_MODULES = ["Run.C11Run"]
 AXIOMS_OK = []
+# second tie to the code (tools/py2coq.py + front-end tools/py2coq_eff.py + coq/theories/GenProofs): on every run the source of
+# Job.evaluate (sync_individual after state := EVALUATED on the successful attempt only, nothing on a failed one) and of
+# SqliteDataStore.sync_individual / sync_all (execute, then commit, on the connection opened at entry; the retry on
+# sqlite3.OperationalError) is translated and proved equal to Model/Job.v job_evaluate / the step lists of Model/Crash.v
+from harness.core import translated_specs
+TRANSLATED = translated_specs("SignedCostsGen", "JobGen", "StoreGen")
 TRUSTED = [
     "Coq 8.16.1 kernel, vm_compute for model evaluation (no native_compute)",
     "hand-written model Model/Crash.v (on top of Model/Store.v, C10) tied to job.py / datastore.py by this correspondence run, "
